@@ -111,6 +111,11 @@ func compareDatesForLetter(value, start, end Date) string {
 	endTime := end.Time().Truncate(24 * time.Hour)
 
 	switch {
+	// When the other range is a single day the end of this range has to be
+	// classified against the end (not the start) of that day.
+	case value.IsEndOfRange && valueTime.Equal(endTime):
+		return "E"
+
 	case valueTime.Equal(startTime):
 		return "e"
 
